@@ -322,7 +322,15 @@ func (s *state) Enqueue(task *Task) (nwait int) {
 	}
 	for _, task := range task.Phase() {
 		switch task.State() {
-		case TaskOk, TaskErr:
+		case TaskOk:
+		case TaskErr:
+			// A failed task is not done: its dependents must not be run, and
+			// the evaluation as a whole has failed.
+			if s.err == nil {
+				msg := fmt.Sprintf("error running %s", task.Name)
+				s.err = errors.E(msg, task.Err())
+			}
+			nwait++
 		case TaskWaiting, TaskRunning:
 			s.schedule(task)
 			nwait++
